@@ -32,9 +32,14 @@ type Input struct {
 	Data   []byte            // envelope / file bytes
 	Chain  [][]byte          // DER certificates (kind chain)
 	Bodies map[string][]byte // route (host or host/path) -> HTTP 200 body; "ocsp*" / "crl*" are catch-alls
-	WithST bool
-	Cache  bool
+	// Lengths announces a Content-Length for a route whatever its body holds
+	Lengths map[string]int64
+	WithST  bool
+	Cache   bool
 }
+
+// lyingLengths are announced body sizes a server can claim
+var lyingLengths = []int64{1, 1 << 31, 1<<31 - 1, 1 << 32, 1 << 40, 1 << 62, 1<<63 - 1, 32*1024*1024 + 1, 20*1024 + 1}
 
 // Corpus is the seed material, built once by the parent and shared with the
 // workers through a file so that (part, seed, index) determines the input.
@@ -677,9 +682,20 @@ func genHostileBody(rng *rand.Rand, idx int) Input {
 	if rng.IntN(6) == 0 {
 		specs[0].Freshest = []string{fmt.Sprintf("http://d0.%s.test/delta0.crl", fam)}
 	}
+	upper := n == 3 && rng.IntN(3) == 0
+	if upper {
+		// a second certificate with its own (well-behaved) distribution points, so
+		// that several certificates are checked at once
+		specs[1].CDP = []string{fmt.Sprintf("http://e0.%s.test/base.crl", fam), fmt.Sprintf("http://e1.%s.test/base.crl", fam)}
+	}
 	ch := pki.MustBuild(specs...)
 	cert, issuer, ikey := ch.Certs[0], ch.Certs[1], ch.Keys[1]
-	in := Input{Kind: "chain", WithST: rng.IntN(2) == 0, Cache: rng.IntN(2) == 0, Bodies: map[string][]byte{}}
+	in := Input{Kind: "chain", WithST: rng.IntN(2) == 0, Cache: rng.IntN(2) == 0, Bodies: map[string][]byte{}, Lengths: map[string]int64{}}
+	if upper {
+		b := pki.BuildCRL(&pki.CRL{IssuerRawName: ch.Certs[2].RawSubject, SignKey: ch.Keys[2], NextUpdate: pki.Future, Number: big.NewInt(7)})
+		in.Bodies[fmt.Sprintf("e0.%s.test/base.crl", fam)] = b[:len(b)-1]
+		in.Bodies[fmt.Sprintf("e1.%s.test/base.crl", fam)] = b
+	}
 	for _, c := range ch.Certs {
 		in.Chain = append(in.Chain, c.Raw)
 	}
@@ -687,16 +703,29 @@ func genHostileBody(rng *rand.Rand, idx int) Input {
 	for j := 0; j < nO; j++ {
 		body, d := hostileOCSP(rng, cert, issuer, ikey)
 		in.Bodies[fmt.Sprintf("o%d.%s.test", j, fam)] = body
+		if rng.IntN(6) == 0 {
+			l := lyingLengths[rng.IntN(len(lyingLengths))]
+			in.Lengths[fmt.Sprintf("o%d.%s.test", j, fam)] = l
+			d += fmt.Sprintf(" announced-length=%d", l)
+		}
 		desc = append(desc, fmt.Sprintf("o%d:%s", j, d))
 	}
 	for j := 0; j < nC; j++ {
 		host := fmt.Sprintf("d%d.%s.test", j, fam)
 		base, delta, d := hostileCRL(rng, cert, issuer, ikey, "http://"+host+"/delta0.crl")
 		in.Bodies[host+"/base.crl"] = base
+		if rng.IntN(6) == 0 {
+			l := lyingLengths[rng.IntN(len(lyingLengths))]
+			in.Lengths[host+"/base.crl"] = l
+			d += fmt.Sprintf(" announced-length=%d", l)
+		}
 		if delta != nil {
 			in.Bodies[host+"/delta0.crl"] = delta
 		}
 		desc = append(desc, fmt.Sprintf("d%d:%s", j, d))
+	}
+	if upper {
+		desc = append(desc, "ca1: two distribution points (first truncated)")
 	}
 	in.Desc = "hostile-body " + strings.Join(desc, " | ")
 	return in
